@@ -170,7 +170,7 @@ func c12Mutate(t *rapid.T, doc []byte) ([]byte, []string) {
 	n := rapid.IntRange(0, 4).Draw(t, "nmut")
 	for i := 0; i < n; i++ {
 		lines := bytes.SplitAfter(doc, []byte("\n"))
-		k := rapid.SampledFrom([]string{"del-line", "dup-line", "swap-lines", "truncate", "insert", "long-line", "only-blanks", "only-bullets", "sharp-run", "indent-first", "mix-indent", "replace-byte", "del-byte", "double-cr", "unicode-blank-line"}).Draw(t, "mut")
+		k := rapid.SampledFrom([]string{"del-line", "dup-line", "swap-lines", "truncate", "insert", "long-line", "only-blanks", "only-bullets", "sharp-run", "indent-first", "mix-indent", "replace-byte", "del-byte", "double-cr", "unicode-blank-line", "no-space-bullet"}).Draw(t, "mut")
 		kinds = append(kinds, k)
 		li := 0
 		if len(lines) > 1 {
@@ -202,9 +202,10 @@ func c12Mutate(t *rapid.T, doc []byte) ([]byte, []string) {
 			ins := rapid.SampledFrom(c12Inserts).Draw(t, "ins")
 			doc = append(append(append([]byte{}, doc[:pos]...), ins...), doc[pos:]...)
 		case "long-line":
-			sz := rapid.SampledFrom([]int{65535, 65536, 65537, 200000, 4096, 70000}).Draw(t, "size")
-			pre := rapid.SampledFrom([]string{"- ", "", "  - ", "# ", "\t- "}).Draw(t, "pre")
-			long := []byte(pre + strings.Repeat("x", sz) + "\n")
+			sz := rapid.SampledFrom([]int{65535, 65536, 65537, 200000, 4096, 70000, 1025, 1500, 3000}).Draw(t, "size")
+			pre := rapid.SampledFrom([]string{"- ", "", "  - ", "# ", "\t- ", "x "}).Draw(t, "pre")
+			fill := rapid.SampledFrom([]string{"x", "x", "\x80", "\xbf", "\xe3\x81", "é"}).Draw(t, "fill")
+			long := []byte(pre + strings.Repeat(fill, sz/len(fill)) + "\n")
 			pos := li
 			if pos > len(lines) {
 				pos = len(lines)
@@ -226,6 +227,21 @@ func c12Mutate(t *rapid.T, doc []byte) ([]byte, []string) {
 				doc = append([]byte{}, doc...)
 				doc[rapid.IntRange(0, len(doc)-1).Draw(t, "pos")] = rapid.Byte().Draw(t, "byte")
 			}
+		case "no-space-bullet":
+			// "-name": the parser accepts a bullet that is not followed by a blank
+			if li < len(lines) {
+				l := lines[li]
+				for i := 0; i+1 < len(l); i++ {
+					if (l[i] == '-' || l[i] == '*' || l[i] == '+') && l[i+1] == ' ' {
+						lines[li] = append(append([]byte{}, l[:i+1]...), l[i+2:]...)
+						break
+					}
+					if l[i] != ' ' && l[i] != '\t' {
+						break
+					}
+				}
+			}
+			doc = bytes.Join(lines, nil)
 		case "unicode-blank-line":
 			// a whole row that only Unicode-aware code calls blank (form feed, vertical tab, NBSP, ideographic space, NEL ...)
 			blank := []byte(rapid.SampledFrom([]string{"\f", "\v", "\u00a0", "\u3000", "\u0085", "\u2003 \t", "\f\v", "\u2028", "\u1680"}).Draw(t, "ublank") + "\n")
@@ -329,7 +345,7 @@ var c12Constants = []string{"", "\n", " ", "\t", "\r\n", "   \n\t\n", "-", "- ",
 	"a", "x - y", "\x00", "\xff\xfe", "- \x00", "- a\x00b\n  - c", "# a\n- b\n  - c\n# d\n- e", "\n\n- a\n\n  - b\n\n", "- a\r\n  - b\r\n", "- a\r  - b\r", "-a", "-  a", "- a\n - b\n  - c\n   - d",
 	"- a\n\t- b\n  - c", "- a\n  - b\n\t- c", "# a\n## b\n### c", "#a", "# #", "- #", "- a\n# b\n- c\n  - d", string(rune(0xFEFF)) + "- a\n  - b", "- a\n  - b\n - c", strings.Repeat("- a\n", 50),
 	strings.Repeat(" ", 70000), "- " + strings.Repeat("x", 70000), strings.Repeat("- a\n", 3) + "- " + strings.Repeat("y", 65536) + "\n- b\n", "- a\n" + strings.Repeat("  ", 40) + "- deep",
-	"\f", "\v\n", "\u3000\n", "\u00a0\n- a\n  - b\n", "\f\n- a\n", "\u0085\n\u2028\n", "- a\n\f\n- b\n", "\u00a0", "- a\r\r\n  - b\r\r\n- c\r\n", "# a\r\r\n- b\r\n", "- ..\n  - ..\n    - ..", "- /\n  - /", "- a\n  - ../../../x", "- .\n  - .", "- a/b", "-\t-\t-", "* + -", "+ * #", "- a\n  * b\n    + c\n  + d\n* e"}
+	"\f", "\v\n", "\u3000\n", "\u00a0\n- a\n  - b\n", "\f\n- a\n", "\u0085\n\u2028\n", "- a\n\f\n- b\n", "\u00a0", strings.Repeat("\x80", 1500), "x " + strings.Repeat("\xbf", 2000) + "\n- a\n", "- a\n  x" + strings.Repeat("\x80", 1100), "- " + strings.Repeat("L", 256) + "\n  - k\n", "- a\n  - b\n-c\n  - d\n", "-a\n-b\n  -c\n", "*a\n+b\n", "- a\r\r\n  - b\r\r\n- c\r\n", "# a\r\r\n- b\r\n", "- ..\n  - ..\n    - ..", "- /\n  - /", "- a\n  - ../../../x", "- .\n  - .", "- a/b", "-\t-\t-", "* + -", "+ * #", "- a\n  * b\n    + c\n  + d\n* e"}
 
 func TestC12Constants(t *testing.T) {
 	col := coll("C12", "constants")
